@@ -47,12 +47,12 @@ func probeBlLeaf() (bool, string) {
 	defer e.close()
 	s := &session{e: e, state: 2, stateAlh: e.tx(2).alh, accepted: map[uint64]H{2: e.tx(2).alh}}
 	for _, t := range []uint64{3, 4} {
-		st, _, err := s.request(t, false)
+		st, _, err := s.request(t, false, false)
 		if err != nil || !st.accepted {
 			return false, ""
 		}
 	}
-	st, alh, err := s.request(2, false)
+	st, alh, err := s.request(2, false, false)
 	if err != nil || !st.accepted {
 		return false, ""
 	}
